@@ -276,6 +276,54 @@ fn rank(v: &RV) -> u8 {
 
 /// exact comparison of an integer with a finite float, integer arithmetic only
 pub fn cmp_int_float(i: i128, fbits: u64) -> Ordering {
+    if i >= i64::MIN as i128 && i <= i64::MAX as i128 {
+        return cmp_i64_float(i as i64, fbits);
+    }
+    cmp_wide_int_float(i, fbits)
+}
+
+/// exact comparison of an i64 with a finite float in 64-bit integer arithmetic
+pub fn cmp_i64_float(i: i64, fbits: u64) -> Ordering {
+    let neg = (fbits >> 63) != 0;
+    let e = ((fbits >> 52) & 0x7ff) as i32;
+    let frac = fbits & ((1u64 << 52) - 1);
+    if e == 0 && frac == 0 {
+        return i.cmp(&0);
+    }
+    if neg && i >= 0 {
+        return Ordering::Greater;
+    }
+    if !neg && i <= 0 {
+        return Ordering::Less;
+    }
+    // same non-zero sign: compare magnitudes |i| (<= 2^63) and |f|
+    let ai: u64 = if i < 0 { (i as u64).wrapping_neg() } else { i as u64 };
+    let mag = if e < 1023 {
+        Ordering::Greater // |f| < 1 <= |i|
+    } else if e >= 1023 + 64 {
+        Ordering::Less // |f| >= 2^64 > |i|
+    } else {
+        let m = frac | (1u64 << 52);
+        let sh = e - 1075; // |f| = m * 2^sh, -52 <= sh <= 11
+        if sh >= 0 {
+            // m < 2^53, sh <= 11: m << sh < 2^64
+            ai.cmp(&(m << (sh as u32)))
+        } else {
+            let s = (-sh) as u32;
+            let ip = m >> s;
+            let rem = m & ((1u64 << s) - 1);
+            match ai.cmp(&ip) {
+                Ordering::Equal => {
+                    if rem != 0 { Ordering::Less } else { Ordering::Equal }
+                }
+                o => o,
+            }
+        }
+    };
+    if neg { mag.reverse() } else { mag }
+}
+
+fn cmp_wide_int_float(i: i128, fbits: u64) -> Ordering {
     let neg = (fbits >> 63) != 0;
     let e = ((fbits >> 52) & 0x7ff) as i32;
     let frac = fbits & ((1u64 << 52) - 1);
